@@ -27,6 +27,51 @@ pub const STRAT_PAUSE: u8 = 4;
 /// Like PAUSE, but the frozen sites are 1-3 of the NAMED schedule points that mark the protocol's
 /// narrow windows (claim -> lock, scan -> timestamp, status -> rewind, publish -> release ...).
 pub const STRAT_WINDOW: u8 = 5;
+/// Transaction-targeted freezes: 1-3 triggers (named site, transaction id, minimum incarnation, hits to
+/// let through); a task about to execute that site while it works on that transaction (as announced
+/// by the ExecStart / ValidateStart / ValidationClaimed hooks) is frozen for a window of decisions.
+/// Far fewer distinct trigger instances exist per run than (site, hit count) pairs, so the narrow
+/// two-window interleavings of the validation protocol are sampled much more often.
+pub const STRAT_TXWINDOW: u8 = 6;
+
+/// Sites worth qualifying by transaction: the protocol windows and the per-location memory operations.
+pub const TX_SITES: &[(&str, u32)] = &[
+    ("win.next.validation_claimed", 8),
+    ("win.exec.done", 8),
+    ("win.exec.before_status", 4),
+    ("win.exec.before_rewind", 4),
+    ("win.validate.after_scan", 6),
+    ("win.validate.before_status", 6),
+    ("win.validate.before_notify", 2),
+    ("win.rewind.after_ts", 3),
+    ("win.rewind.before_cursor", 3),
+    ("win.hist.record", 3),
+    ("win.hist.invalidate", 3),
+    ("win.dep.add", 2),
+    ("win.dep.remove.scan", 2),
+    ("mv.publish", 4),
+    ("mv.mark_estimate", 3),
+    ("mv.remove_stale", 3),
+    ("mv.validate", 4),
+    ("mv.read.basic", 2),
+    ("mv.read.slot", 3),
+    ("mv.read.reset", 2),
+    ("mv.read.code", 2),
+    ("hist.scan", 2),
+    ("db.basic", 2),
+    ("db.storage", 2),
+    ("db.code", 1),
+    ("cache.slot.insert", 1),
+];
+
+#[derive(Clone, Debug)]
+struct TxTrigger {
+    site: u32,
+    txid: u32,
+    min_incarnation: u32,
+    skips: u32,
+    freezes: u32,
+}
 
 /// Named schedule points of the guarded hooks (stable under line shifts). The first group (weight 3)
 /// marks the windows the properties name; the rest are memory / cache / database points.
@@ -128,6 +173,7 @@ pub struct SimScheduler {
     /// hits of a selected site still to be let through before a task is frozen there
     site_skips: Vec<(u32, u32, u32)>,
     pause_skip_any: u32,
+    tx_triggers: Vec<TxTrigger>,
     frozen_until: Vec<u64>,
     frozen_site: Vec<u32>,
     replay_pos: usize,
@@ -187,6 +233,24 @@ impl SimScheduler {
         let site_skips: Vec<(u32, u32, u32)> =
             window_sites.iter().map(|s| (*s, *rng.pick(&[0u32, 0, 0, 1, 2, 3, 5, 8]), *rng.pick(&[1u32, 1, 1, 2, 3]))).collect();
         let pause_skip_any = *rng.pick(&[0u32, 0, 1, 2, 4, 8, 16, 32]);
+        let mut tx_triggers = Vec::new();
+        let (pause_window, pause_budget) = if spec.strategy == STRAT_TXWINDOW {
+            // p1 = number of triggers, p2 = window length
+            let weights: Vec<u32> = TX_SITES.iter().map(|(_, w)| *w).collect();
+            for _ in 0..spec.p1.max(1) {
+                let i = rng.pick_weighted(&weights);
+                tx_triggers.push(TxTrigger {
+                    site: rt::fnv(TX_SITES[i].0.as_bytes()),
+                    txid: *rng.pick(&[0u32, 1, 1, 2, 2, 3, 3, 4, 5]),
+                    min_incarnation: *rng.pick(&[0u32, 0, 2, 2, 3]),
+                    skips: *rng.pick(&[0u32, 0, 0, 0, 1, 2]),
+                    freezes: *rng.pick(&[1u32, 1, 1, 2]),
+                });
+            }
+            (spec.p2 as u64, 8)
+        } else {
+            (pause_window, pause_budget)
+        };
         Self {
             spec,
             rng,
@@ -209,6 +273,7 @@ impl SimScheduler {
             window_sites,
             site_skips,
             pause_skip_any,
+            tx_triggers,
             frozen_until: Vec::new(),
             frozen_site: Vec::new(),
             replay_pos: 0,
@@ -383,6 +448,51 @@ impl Scheduler for SimScheduler {
                                 if self.pause_budget > 0 && selected && self.rng.below(1024) < self.pause_prob {
                                     // freeze this task right before the selected program point
                                     self.pause_budget -= 1;
+                                    self.frozen_until[t] = decision_index + self.pause_window;
+                                    self.frozen_site[t] = site;
+                                    self.out.borrow_mut().pauses_applied += 1;
+                                    continue;
+                                }
+                                if self.frozen_site[t] != site {
+                                    self.frozen_site[t] = 0;
+                                }
+                                kept.push(t);
+                            }
+                            if !kept.is_empty() {
+                                cands = kept;
+                            }
+                        }
+                        if self.spec.strategy == STRAT_TXWINDOW {
+                            let mut kept: Vec<usize> = Vec::with_capacity(cands.len());
+                            for &t in &cands {
+                                if self.frozen_until.len() <= t {
+                                    self.frozen_until.resize(t + 1, 0);
+                                    self.frozen_site.resize(t + 1, 0);
+                                }
+                                let site = rt::pending_site(t);
+                                if self.frozen_until[t] > decision_index && self.frozen_site[t] == site {
+                                    continue; // still frozen at that point
+                                }
+                                let mut freeze = false;
+                                if site != 0 && self.frozen_site[t] != site {
+                                    let (kind, txid, inc) = rt::current_op(t);
+                                    if kind != 0 &&
+                                        let Some(tr) = self.tx_triggers.iter_mut().find(|tr| {
+                                            tr.site == site && tr.txid == txid && (inc >= tr.min_incarnation || kind == rt::OP_CLAIM) && tr.freezes > 0
+                                        })
+                                    {
+                                        if tr.skips > 0 {
+                                            tr.skips -= 1;
+                                            // count this pending operation once
+                                            self.frozen_site[t] = site;
+                                            self.frozen_until[t] = 0;
+                                        } else {
+                                            tr.freezes -= 1;
+                                            freeze = true;
+                                        }
+                                    }
+                                }
+                                if freeze {
                                     self.frozen_until[t] = decision_index + self.pause_window;
                                     self.frozen_site[t] = site;
                                     self.out.borrow_mut().pauses_applied += 1;
